@@ -35,6 +35,9 @@ func symErr(fr *frame, label string) value {
 		return iface{}
 	}
 	if fr.ex().concrete {
+		if rv := fr.ex().nextVec("bool", "err_"+label); rv.Int != 0 {
+			return fr.i.mkError("verif: " + label + " failed")
+		}
 		return iface{}
 	}
 	ex := fr.ex()
